@@ -284,10 +284,14 @@ func (r *persistRule) checkHandlerArgs(e *Engine, st *State, fc *FrameCtx, in ss
 	if len(c.Args) != 3 {
 		return
 	}
-	if !r.isEventParam(c.Args[0]) {
+	pf := r.R.PersistFn
+	if len(pf.Params) != 4 {
+		return
+	}
+	if e.CanonS(fc, c.Args[0]) != "param:"+fnName(pf)+"."+pf.Params[3].Name() {
 		e.Report(st, in.Pos(), "persist-fn/error-handler/event-arg", "the persistence error handler is not given the published event")
 	}
-	if p, ok := stripConv(c.Args[1]).(*ssa.Parameter); !(ok && len(r.R.PersistFn.Params) == 4 && p == r.R.PersistFn.Params[2]) {
+	if e.CanonS(fc, c.Args[1]) != "param:"+fnName(pf)+"."+pf.Params[2].Name() {
 		e.Report(st, in.Pos(), "persist-fn/error-handler/type-arg", "the persistence error handler is not given the event's reflect.Type")
 	}
 	// the reported error carries the failing error
